@@ -354,6 +354,7 @@ def section_indent(s1: int, k1: int, l1: int, i1: int, s2: int, k2: int, l2: int
     pre: 0 <= s1 < 2 and 0 <= s2 < 2 and 0 <= s3 < 2 and 0 <= k1 < 3 and 0 <= k2 < 3 and 0 <= k3 < 3
     pre: 0 <= l1 < 2 and 0 <= l2 < 2 and 0 <= l3 < 2 and 0 <= i1 < 3 and 0 <= i2 < 3 and 0 <= i3 < 3
     pre: PART["nops"] > 2 or (s3 == 0 and k3 == 0 and l3 == 0 and i3 == 0)
+    pre: PART.get("first") is None or (s1 == PART["first"][0] and k1 == PART["first"][1])
     post: _
     """
     from harness import c15
@@ -366,8 +367,8 @@ def conditions(tier):
     quick = tier == "quick"
     t = 100 if quick else 1200
     conds = []
-    for ansi in (True, False):
-        conds.append({"name": "section_indent[%s]" % ("ansi" if ansi else "plain"), "fn": section_indent, "timeout": t, "part": {"ansi": ansi, "nops": 2 if quick else 3},
+    for ansi, first in [(a_, f_) for a_ in (True, False) for f_ in ([None] if quick else [(s_, k_) for s_ in (0, 1) for k_ in (0, 1, 2)])]:
+        conds.append({"name": "section_indent[%s%s]" % ("ansi" if ansi else "plain", "" if first is None else ",first=s%d.%d" % first), "fn": section_indent, "timeout": t, "part": {"ansi": ansi, "nops": 2 if quick else 3, "first": first},
                       "bounds": "two prefilled sections of one output (terminal width 12), %d operations from {write_line, write two lines, overwrite} x text length {1, 13} x an indentation scope of 0, 1 or 4 on the section; "
                                 "the emitted bytes interpreted by the C15 terminal emulator: every non-empty line shows the indentation in force when it was written" % (2 if quick else 3)})
     if quick:
